@@ -93,6 +93,35 @@ def b_random_choice(eng, e, st):
     return out
 
 
+# ---------------------------------------------------------------------------
+# external classes: [TRUSTED] contracts registered by the contract files
+# ---------------------------------------------------------------------------
+EXT_MODELS = {}      # (class, method) -> fn(eng, call node, state, receiver Val) -> [(state, Val)]
+EXT_TEXT = {}        # (class, method) -> what is assumed, for the evidence
+
+
+def ext_method(cls, method, text):
+    def deco(fn):
+        EXT_MODELS[(cls, method)] = fn
+        EXT_TEXT[(cls, method)] = text
+        return fn
+    return deco
+
+
+def ext_function(name, text):
+    """a module-level function or constructor of an external library, by the dotted text of the call"""
+    def deco(fn):
+        MODELS[name] = fn
+        TRUSTED_TEXT[name] = text
+        try:
+            from . import builtins as _b
+            _b.BUILTINS[name] = fn
+        except Exception:  # pragma: no cover  (builtins imports this module first)
+            pass
+        return fn
+    return deco
+
+
 MODELS = {
     "random.seed": b_random_seed,
     "random.randint": b_random_randint,
